@@ -63,11 +63,12 @@ void desc(const char* fmt, ...) {
 // class histogram inside the window: fixed counters, flushed to verif::cls afterwards
 enum { C_ALLOC, C_ALLOC_FAILS, C_DESIG_GLOBAL, C_DESIG_LOC, C_DESIG_PAST, C_FREE, C_CHECK_PENDING, C_CHECK_CLEAN, C_CLEAR,
        C_COINCIDENCE, C_MALLOC, C_CALLOC, C_STRDUP, C_STRNDUP, C_REALLOC, C_NEW, C_NEWARR, C_NOTHROW, C_COUNTDOWN, C_SETOOM,
-       C_NOTOOM, C_OOM_CALL, C_ENUM_GLOBAL, C_ENUM_LOC, C_ENUM_COUNTDOWN, C_NCLS };
+       C_NOTOOM, C_OOM_CALL, C_ENUM_GLOBAL, C_ENUM_LOC, C_ENUM_COUNTDOWN, C_PLAIN, C_INT_LINE, C_COUNT_RESET, C_COUNT_GET, C_ENUM_FAMILIES, C_NCLS };
 const char* const cls_name[C_NCLS] = { "alloc", "alloc-designated-to-fail", "designate-global", "designate-location", "designate-global-already-passed",
        "free", "check-with-pending", "check-clean", "clear", "one-call-named-twice", "cpputest_malloc", "cpputest_calloc", "cpputest_strdup",
        "cpputest_strndup", "cpputest_realloc", "new", "new[]", "nothrow-new", "countdown", "set_out_of_memory", "set_not_out_of_memory",
-       "call-inside-oom-window", "enumerate-by-global-index", "enumerate-by-location", "enumerate-by-countdown" };
+       "call-inside-oom-window", "enumerate-by-global-index", "enumerate-by-location", "enumerate-by-countdown",
+       "plain-entry-point(no file,line)", "new(file,int line)", "cpputest_malloc_count_reset", "cpputest_malloc_get_count", "enumerate-through-malloc/new/new[]-families" };
 unsigned g_cls[C_NCLS];
 
 // ---- the model (A.3) --------------------------------------------------------------------------------------------
@@ -289,8 +290,8 @@ void run_direct(Reader& r, NT& nt) {
 // =================================================================================================================
 // mode W: the real entry points inside an ON window
 // =================================================================================================================
-enum { W_MALLOC, W_CALLOC, W_STRDUP, W_STRNDUP, W_NEW, W_NEWARR, W_NOTHROW, W_PLAINNEW, W_REALLOC, W_FREE, W_DESIG_G, W_DESIG_L, W_COUNTDOWN, W_SETOOM, W_NOTOOM, W_CLEAR };
-struct WOp { uint8_t kind; uint8_t loc; uint8_t which; uint16_t a; uint16_t b; uint8_t slot; };
+enum { W_MALLOC, W_CALLOC, W_STRDUP, W_STRNDUP, W_NEW, W_NEWARR, W_NOTHROW, W_PLAINNEW, W_REALLOC, W_FREE, W_DESIG_G, W_DESIG_L, W_COUNTDOWN, W_SETOOM, W_NOTOOM, W_CLEAR, W_COUNT_RESET, W_COUNT_GET };
+struct WOp { uint8_t kind; uint8_t loc; uint8_t which; uint16_t a; uint16_t b; uint8_t slot; bool plain; };   // plain: the entry point without file/line (new: int line; delete: sized)
 const int MAXOPS = 48;
 const char g_text[] = "the quick brown fox jumps over the lazy dog";   // strdup source
 
@@ -305,15 +306,25 @@ struct Window {
     FailableMemoryAllocator* fa[3];
     int variety() const { return m[0].variety() + m[1].variety() + m[2].variety() + ((c.armed || c.oom) ? 1 : 0); }
     void keep(char* p, size_t size, int fam) { if (nlive < MAXLIVE) live[nlive++] = Live{p, size, fam}; else release(Live{p, size, fam}); }
-    void release(const Live& l) {
-        if (l.fam == 0) cpputest_free_location(l.p, alloc_file[0], 77);
-        else if (l.fam == 1) ::operator delete(l.p);
-        else ::operator delete[](l.p);
+    void release(const Live& l, bool plain = false) {
+        if (l.fam == 0) { if (plain) cpputest_free(l.p); else cpputest_free_location(l.p, alloc_file[0], 77); }
+        else if (l.fam == 1) { if (plain) ::operator delete(l.p, l.size); else ::operator delete(l.p); }
+        else { if (plain) ::operator delete[](l.p, l.size); else ::operator delete[](l.p); }
+    }
+    // model of cpputest_malloc_get_count(): every malloc/calloc/strdup/strndup call since the last reset, failed or not.  The
+    // counter is process-wide, so the model starts from the value read when the script starts (only an explicit reset zeroes it:
+    // a case must mean the same in a fresh process as in the middle of a campaign)
+    int mcount = 0, mbase = cpputest_malloc_get_count();
+    bool count_ok(const char* when) {
+        int got = cpputest_malloc_get_count() - mbase;
+        if (got == mcount) return true;
+        bad("C15:malloc-count-wrong", "%s: cpputest_malloc_get_count() = %d after %d malloc-family calls since the last reset (the count is what sizes a countdown loop over every allocation point)", when, got, mcount);
+        return false;
     }
     // one allocation through an entry point of family fam (0 malloc, 1 new, 2 new[]); returns false when the case is decided
     bool allocation(const WOp& o) {
         int fam = (o.kind == W_NEW || o.kind == W_NOTHROW || o.kind == W_PLAINNEW) ? 1 : (o.kind == W_NEWARR ? 2 : 0);
-        int loc = (o.kind == W_NOTHROW || o.kind == W_PLAINNEW) ? NLOC - 1 : o.loc;
+        int loc = (o.kind == W_NOTHROW || o.kind == W_PLAINNEW || (o.plain && fam == 0)) ? NLOC - 1 : o.loc;
         bool in_oom = false;
         if (fam == 0) {
             // would this malloc start / continue the simulated OOM?  (peek: the model is advanced below)
@@ -329,8 +340,9 @@ struct Window {
         bool foreign = !in_oom && m[fam].foreign_index_matches(loc) > 0;
         bool expect_fail;
         bool str_entry = o.kind == W_STRDUP || o.kind == W_STRNDUP;
-        if (fam == 0) { c.on_malloc(); expect_fail = in_oom ? true : m[0].on_alloc(loc); }
+        if (fam == 0) { c.on_malloc(); mcount++; expect_fail = in_oom ? true : m[0].on_alloc(loc); }
         else expect_fail = m[fam].on_alloc(loc);
+        if (o.plain) g_cls[fam == 0 ? C_PLAIN : (o.kind == W_NEW || o.kind == W_NEWARR) ? C_INT_LINE : C_PLAIN]++;
         if (str_entry && expect_fail && g_k_strdup) {
             g_x_strdup++;
             // listed finding: the call would write through NULL.  Keep code and model in step with a plain malloc.
@@ -345,25 +357,26 @@ struct Window {
         char* p = NULLPTR; size_t size = 1 + o.a % 200; bool failed = false; const char* what = "?";
         const char* f = alloc_file[loc]; size_t line = loc_line[loc];
         switch (o.kind) {
-        case W_MALLOC: what = "cpputest_malloc_location"; g_cls[C_MALLOC]++; p = (char*)cpputest_malloc_location(size, f, line); failed = !p; break;
+        case W_MALLOC: what = o.plain ? "cpputest_malloc" : "cpputest_malloc_location"; g_cls[C_MALLOC]++; p = (char*)(o.plain ? cpputest_malloc(size) : cpputest_malloc_location(size, f, line)); failed = !p; break;
         case W_CALLOC: { what = "cpputest_calloc_location"; g_cls[C_CALLOC]++; size_t num = 1 + o.b % 6; size = 1 + o.a % 40;
-                         p = (char*)cpputest_calloc_location(num, size, f, line); failed = !p; size *= num;
+                         if (o.plain) what = "cpputest_calloc";
+                         p = (char*)(o.plain ? cpputest_calloc(num, size) : cpputest_calloc_location(num, size, f, line)); failed = !p; size *= num;
                          if (p) for (size_t i = 0; i < size; i++) if (p[i]) { bad("C15:calloc-not-zeroed", "calloc block byte %zu is not zero", i); break; }
                          break; }
         case W_STRDUP: case W_STRNDUP: {
             size_t off = o.a % (sizeof g_text); const char* src = g_text + off; size_t n = o.b % 24;
-            bool nd = o.kind == W_STRNDUP; what = nd ? "cpputest_strndup_location" : "cpputest_strdup_location"; g_cls[nd ? C_STRNDUP : C_STRDUP]++;
+            bool nd = o.kind == W_STRNDUP; what = nd ? (o.plain ? "cpputest_strndup" : "cpputest_strndup_location") : (o.plain ? "cpputest_strdup" : "cpputest_strdup_location"); g_cls[nd ? C_STRNDUP : C_STRDUP]++;
             size_t len = strlen(src); if (nd && n < len) len = n; size = len + 1;
             // always guarded: when code and model disagree about the underlying malloc the call must not take the process down
-            bool crashed = died_on_segv([&] { p = nd ? cpputest_strndup_location(src, n, f, line) : cpputest_strdup_location(src, f, line); });
+            bool crashed = died_on_segv([&] { p = o.plain ? (nd ? cpputest_strndup(src, n) : cpputest_strdup(src)) : (nd ? cpputest_strndup_location(src, n, f, line) : cpputest_strdup_location(src, f, line)); });
             if (crashed && !expect_fail) { failed = true; break; }      // the malloc failed although the model lets it succeed: judged below
             if (crashed) { bad(K_STRDUP, "%s(\"%s\") while its malloc is designated to fail (%s) wrote through the NULL block instead of returning NULL", what, src, in_oom ? "simulated out-of-memory" : "failable allocator"); return false; }
             failed = !p;
             if (p && (strlen(p) != len || memcmp(p, src, len) != 0)) bad("C15:strdup-wrong-copy", "%s copied \"%s\" as \"%.60s\"", what, src, p);
             break; }
-        case W_NEW: what = "operator new(size, file, line)"; g_cls[C_NEW]++; try { p = (char*)::operator new(size, f, line); if (!p) bad("C15:throwing-new-returned-null", "%s returned NULL", what); } catch (const std::bad_alloc&) { failed = true; } break;
+        case W_NEW: what = "operator new(size, file, line)"; g_cls[C_NEW]++; try { p = (char*)(o.plain ? ::operator new(size, f, (int)line) : ::operator new(size, f, line)); if (!p) bad("C15:throwing-new-returned-null", "%s returned NULL", what); } catch (const std::bad_alloc&) { failed = true; } break;
         case W_PLAINNEW: what = "operator new(size)"; g_cls[C_NEW]++; try { p = (char*)::operator new(size); if (!p) bad("C15:throwing-new-returned-null", "%s returned NULL", what); } catch (const std::bad_alloc&) { failed = true; } break;
-        case W_NEWARR: what = "operator new[](size, file, line)"; g_cls[C_NEWARR]++; try { p = (char*)::operator new[](size, f, line); if (!p) bad("C15:throwing-new-returned-null", "%s returned NULL", what); } catch (const std::bad_alloc&) { failed = true; } break;
+        case W_NEWARR: what = "operator new[](size, file, line)"; g_cls[C_NEWARR]++; try { p = (char*)(o.plain ? ::operator new[](size, f, (int)line) : ::operator new[](size, f, line)); if (!p) bad("C15:throwing-new-returned-null", "%s returned NULL", what); } catch (const std::bad_alloc&) { failed = true; } break;
         case W_NOTHROW: what = "operator new(size, nothrow)"; g_cls[C_NOTHROW]++; try { p = (char*)::operator new(size, std::nothrow); failed = !p; } catch (...) { bad("C15:nothrow-new-threw", "nothrow new threw"); } break;
         }
         desc("%s at %s:%zu -> %s [model: %s%s]", what, f, line, failed ? "NULL/bad_alloc" : "block", expect_fail ? "fails" : "block", in_oom ? ", inside simulated OOM" : "");
@@ -380,14 +393,15 @@ struct Window {
                 if (c.oom || !nlive) break;
                 int s = o.slot % nlive; if (live[s].fam != 0) break;
                 size_t ns = 1 + o.a % 300; char first = live[s].p[0];
-                char* q = (char*)cpputest_realloc_location(live[s].p, ns, alloc_file[o.loc], loc_line[o.loc]); g_cls[C_REALLOC]++;
+                char* q = (char*)(o.plain ? cpputest_realloc(live[s].p, ns) : cpputest_realloc_location(live[s].p, ns, alloc_file[o.loc], loc_line[o.loc])); g_cls[C_REALLOC]++;
+                if (o.plain) g_cls[C_PLAIN]++;
                 desc("cpputest_realloc_location(block, %zu) -> %s", ns, q ? "block" : "NULL");
                 if (!q) { bad("C15:undesignated-allocation-failed", "realloc to %zu bytes returned NULL although no failure was injected", ns); live[s] = live[--nlive]; break; }
                 if (q[0] != first) bad("C15:realloc-lost-content", "realloc changed the first byte");
                 live[s].p = q; live[s].size = ns; break; }
             case W_FREE: {
                 if (c.oom || !nlive) break;           // A.3: frees are deferred until the simulated OOM is over
-                int s = o.slot % nlive; release(live[s]); live[s] = live[--nlive]; g_cls[C_FREE]++; desc("free/delete(block)"); break; }
+                int s = o.slot % nlive; release(live[s], o.plain); live[s] = live[--nlive]; g_cls[C_FREE]++; desc("free/delete(block)"); break; }
             case W_DESIG_G: {
                 Model& mm = m[o.which]; int k = o.a % 8 == 7 ? 0 : 1 + o.a % 9; int n = mm.g + k;
                 if (mm.equivalent_pending(false, n, 0) || mm.nd >= MAXD) break;
@@ -405,6 +419,8 @@ struct Window {
                 desc("cpputest_malloc_set_out_of_memory_countdown(%d)", n); break; }
             case W_SETOOM: if (c.oom) break; cpputest_malloc_set_out_of_memory(); c.oom = true; c.armed = false; g_cls[C_SETOOM]++; desc("cpputest_malloc_set_out_of_memory()"); break;
             case W_NOTOOM: not_oom(); break;
+            case W_COUNT_RESET: cpputest_malloc_count_reset(); mcount = 0; mbase = 0; g_cls[C_COUNT_RESET]++; desc("cpputest_malloc_count_reset()"); break;
+            case W_COUNT_GET: g_cls[C_COUNT_GET]++; desc("cpputest_malloc_get_count() [model: %d]", mcount); count_ok("cpputest_malloc_get_count"); break;
             case W_CLEAR: fa[o.which]->clearFailedAllocs(); m[o.which].clear(); g_cls[C_CLEAR]++; g_taint_locglobal = g_taint_walk = false; desc("allocator[%d].clearFailedAllocs()", o.which); break;
             }
             if (g_reporter->calls) bad("C15:detector-report-during-injection", "the leak detector reported a failure: %.200s", g_reporter->first);
@@ -425,6 +441,7 @@ struct Window {
         if (!g_bad) {   // restored: the next allocation of each family is governed by the designations alone again
             WOp o{}; o.kind = W_MALLOC; o.loc = 0; o.a = 7; allocation(o);
         }
+        if (!g_bad) count_ok("end of the script");
         for (int i = 0; i < nlive; i++) release(live[i]);
         nlive = 0;
         for (int k = 0; k < 3; k++) fa[k]->clearFailedAllocs();
@@ -457,11 +474,13 @@ void run_window(Reader& r, NT& nt) {
     int n = 8 + (int)r.below(24);
     for (int i = 0; i < n; i++) {     // three bytes per operation: kind, (location, allocator), argument
         static const uint8_t table[] = { W_MALLOC, W_MALLOC, W_MALLOC, W_CALLOC, W_STRDUP, W_STRNDUP, W_NEW, W_NEW, W_NEWARR, W_NOTHROW, W_PLAINNEW, W_REALLOC, W_FREE, W_FREE,
-                                         W_DESIG_G, W_DESIG_L, W_DESIG_L, W_DESIG_L, W_COUNTDOWN, W_COUNTDOWN, W_SETOOM, W_NOTOOM, W_NOTOOM, W_CLEAR };
+                                         W_DESIG_G, W_DESIG_L, W_DESIG_L, W_DESIG_L, W_COUNTDOWN, W_COUNTDOWN, W_SETOOM, W_NOTOOM, W_NOTOOM, W_CLEAR,
+                                         W_COUNT_GET, W_COUNT_RESET };     // (appended: the first 24 entries keep their index)
         WOp o{}; o.kind = table[r.below(sizeof table)];
         uint32_t v = r.below(240), a = r.below(256);
         o.loc = (uint8_t)(v % 6);
         if (o.kind == W_DESIG_L && v >= 228) o.loc = NLOC - 1;
+        o.plain = (v / 24) % 2 == 1;
         o.which = (uint8_t)(v / 6 % 4 % 3); o.a = (uint16_t)a; o.b = (uint16_t)(a * 7 % 251); o.slot = (uint8_t)(a % 64);
         push(o);
     }
@@ -481,7 +500,8 @@ void run_window(Reader& r, NT& nt) {
 void run_enumeration(Reader& r, NT& nt) {
     int N = 2 + (int)r.below(7);
     struct Step { uint8_t loc; uint8_t entry; uint16_t a; } w[8];
-    bool c_level = r.below(3) == 2;                       // C countdown form (ON window) instead of the direct form
+    uint32_t eform = r.below(4);                          // 0, 1 direct form; 2 C countdown form (ON window); 3 malloc/new/new[] families (ON window)
+    bool c_level = eform == 2, families = eform == 3;
     for (int i = 0; i < N; i++) { uint32_t v = r.below(240); w[i].loc = (uint8_t)(v % 6); w[i].entry = (uint8_t)(v / 6 % 4); w[i].a = (uint16_t)(v * 2 + i); }
     // background designation of another kind that stays pending during every replay
     uint32_t bg = 1 + r.below(3);                          // 1 global beyond the workload, 2 location beyond its occurrences, 3 both
@@ -490,7 +510,7 @@ void run_enumeration(Reader& r, NT& nt) {
     desc("workload of %d allocations:", N);
     for (int i = 0; i < N; i++) desc("  #%d at %s:%zu", i + 1, alloc_file[w[i].loc], loc_line[w[i].loc]);
 
-    if (!c_level) {
+    if (!c_level && !families) {
         FailableMemoryAllocator* fa = g_direct;
         for (int style = 0; style < 2 && !g_bad; style++) {          // 0: by global index, 1: by location x local index
             for (int k = 1; k <= N && !g_bad; k++) {
@@ -522,12 +542,53 @@ void run_enumeration(Reader& r, NT& nt) {
         fa->clearFailedAllocs();
         return;
     }
-    // C level: countdown(k) for every k, the real malloc-family entry points, default bookkeeping
     static Window win; win = Window(); win.nt = &nt; win.fa[0] = g_fm; win.fa[1] = g_fn; win.fa[2] = g_fa;
+    if (families) {
+        // the workload goes through cpputest_malloc / new / new[] / nothrow new with FailableMemoryAllocators behind all three families;
+        // allocation k is designated on ITS allocator, by that allocator's own index or by (location, local index)
+        static const uint8_t entry[4] = { W_MALLOC, W_NEW, W_NEWARR, W_NOTHROW };
+        auto fam_of = [&](int i) { return w[i].entry == 0 ? 0 : w[i].entry == 2 ? 2 : 1; };
+        auto loc_of = [&](int i) { return (w[i].entry == 3 || (w[i].entry == 0 && (w[i].a & 1))) ? NLOC - 1 : (int)w[i].loc; };
+        OnWindow on;
+        for (int style = 0; style < 2 && !g_bad; style++) for (int k = 1; k <= N && !g_bad; k++) {
+            g_cls[C_ENUM_FAMILIES]++;
+            for (int f = 0; f < 3; f++) { win.fa[f]->clearFailedAllocs(); win.m[f].clear(); }
+            int fk = fam_of(k - 1), lk = loc_of(k - 1), jg = 0, jl = 0;
+            for (int i = 0; i < k; i++) if (fam_of(i) == fk) { jg++; if (loc_of(i) == lk) jl++; }
+            if (bg & 1) { int other = (fk + 1) % 3; win.m[other].add(false, N + 1, 0); win.fa[other]->failAllocNumber(N + 1); }
+            if (bg & 2) { int other = (fk + 2) % 3; win.m[other].add(true, N + 1, bg_loc); win.fa[other]->failNthAllocAt(N + 1, desig_file[bg_loc], loc_line[bg_loc]); }
+            if (style == 0) { win.m[fk].add(false, jg, 0); win.fa[fk]->failAllocNumber(jg); }
+            else { win.m[fk].add(true, jl, lk); win.fa[fk]->failNthAllocAt(jl, desig_file[lk], loc_line[lk]); }
+            desc("replay with allocation #%d designated on allocator[%d] %s", k, fk, style ? "by location" : "by its index");
+            int failures = 0;
+            for (int i = 0; i < N && !g_bad; i++) {
+                WOp o{}; o.kind = entry[w[i].entry]; o.loc = w[i].loc; o.a = w[i].a; o.plain = (w[i].a & 1) != 0;
+                int before = win.nlive;
+                win.allocation(o);
+                if (!g_bad && win.nlive == before) { failures++; if (i + 1 != k) bad("C15:harness-model-inconsistent", "internal: allocation #%d failed in the replay that designates #%d", i + 1, k); }
+            }
+            if (!g_bad && failures != 1) bad("C15:harness-model-inconsistent", "internal: %d failures in a replay with one designation", failures);
+            for (int i = 0; i < win.nlive; i++) win.release(win.live[i], (i & 1) != 0);
+            win.nlive = 0;
+            if (g_reporter->calls) bad("C15:detector-report-during-injection", "the leak detector reported a failure: %.200s", g_reporter->first);
+        }
+        win.finish();
+        return;
+    }
+    // C level: countdown(k) for every k, the real malloc-family entry points, default bookkeeping
     {
         OnWindow on;
         if (bg & 1) { win.m[0].add(false, 1000, 0); g_fm->failAllocNumber(1000); }
         if (bg & 2) { win.m[1].add(true, 3, bg_loc); g_fn->failNthAllocAt(3, desig_file[bg_loc], loc_line[bg_loc]); }
+        {   // the in-tree idiom: run the workload once, read cpputest_malloc_get_count(), then loop the countdown over 1..count
+            static const uint8_t entry[4] = { W_MALLOC, W_CALLOC, W_STRDUP, W_STRNDUP };
+            cpputest_malloc_count_reset(); win.mcount = 0; win.mbase = 0; g_cls[C_COUNT_RESET]++; g_cls[C_COUNT_GET]++;
+            for (int i = 0; i < N && !g_bad; i++) { WOp o{}; o.kind = entry[w[i].entry]; o.loc = w[i].loc; o.a = w[i].a; o.b = (uint16_t)(w[i].a >> 3); o.plain = (w[i].a & 1) != 0; win.allocation(o); }
+            if (!g_bad && win.mcount != N) bad("C15:harness-model-inconsistent", "internal: %d malloc-family calls counted for a workload of %d", win.mcount, N);
+            if (!g_bad) win.count_ok("dry run of the workload");
+            for (int i = 0; i < win.nlive; i++) win.release(win.live[i], (i & 1) != 0);
+            win.nlive = 0;
+        }
         for (int k = 0; k <= N && !g_bad; k++) {
             g_cls[C_ENUM_COUNTDOWN]++;
             cpputest_malloc_set_out_of_memory_countdown(k);
@@ -535,7 +596,7 @@ void run_enumeration(Reader& r, NT& nt) {
             desc("replay after cpputest_malloc_set_out_of_memory_countdown(%d)", k);
             for (int i = 0; i < N && !g_bad; i++) {
                 static const uint8_t entry[4] = { W_MALLOC, W_CALLOC, W_STRDUP, W_STRNDUP };
-                WOp o{}; o.kind = entry[w[i].entry]; o.loc = w[i].loc; o.a = w[i].a; o.b = (uint16_t)(w[i].a >> 3);
+                WOp o{}; o.kind = entry[w[i].entry]; o.loc = w[i].loc; o.a = w[i].a; o.b = (uint16_t)(w[i].a >> 3); o.plain = (w[i].a & 1) != 0;
                 bool expect_oom = (k == 0) || (i + 1 >= k);
                 CModel peek = win.c; bool model_oom = peek.on_malloc();
                 if (model_oom != expect_oom) { bad("C15:harness-model-inconsistent", "internal: countdown model disagrees with the A.3 rule at malloc #%d after countdown(%d)", i + 1, k); break; }
@@ -546,7 +607,7 @@ void run_enumeration(Reader& r, NT& nt) {
             for (int i = 0; i < win.nlive; i++) win.release(win.live[i]);
             win.nlive = 0;
             // normal behaviour restored
-            void* p = cpputest_malloc_location(16, alloc_file[0], loc_line[0]); win.m[0].on_alloc(0);
+            void* p = cpputest_malloc_location(16, alloc_file[0], loc_line[0]); win.m[0].on_alloc(0); win.mcount++;
             if (!p) bad("C15:malloc-fails-after-reset", "cpputest_malloc returned NULL after set_not_out_of_memory (countdown %d)", k); else cpputest_free_location(p, alloc_file[0], 1);
             if (g_reporter->calls) bad("C15:detector-report-during-injection", "the leak detector reported a failure: %.200s", g_reporter->first);
         }
@@ -578,6 +639,9 @@ extern "C" int verif_case(const uint8_t* data, size_t size) {
     g_direct = &direct; g_fm = &fm; g_fn = &fn; g_fa = &fa;
     struct Drop { ~Drop() { g_direct->clearFailedAllocs(); g_fm->clearFailedAllocs(); g_fn->clearFailedAllocs(); g_fa->clearFailedAllocs(); g_direct = g_fm = g_fn = g_fa = NULLPTR; } } drop;
     g_detector->clearAllAccounting(mem_leak_period_all);
+    // the process-wide malloc counter is never zero when a script starts (also in a fresh replay process): a reset that does
+    // nothing is then visible in the shortest case "reset, get" and every failure replays from its file
+    { void* warm = cpputest_malloc_location(1, "warmup.c", 1); cpputest_free_location(warm, "warmup.c", 1); }
     NT nt;
     uint32_t mode = r.below(8);     // 0-3 direct history, 4-6 entry points in an ON window, 7 enumeration
     if (mode <= 3) { verif::cls("mode:direct-history"); run_direct(r, nt); }
